@@ -1,0 +1,16 @@
+//go:build verif
+
+package aggchainproofclient
+
+import (
+	aggkitProverV1Grpc "buf.build/gen/go/agglayer/provers/grpc/go/aggkit/prover/v1/proverv1grpc"
+	aggkitgrpc "github.com/agglayer/aggkit/grpc"
+)
+
+// NewAggchainProofClientWithService returns the real client (request / response conversion)
+// over a service supplied by the external verification harness (/verif) instead of a
+// network connection. Only compiled with -tags verif.
+func NewAggchainProofClientWithService(cfg *aggkitgrpc.ClientConfig,
+	svc aggkitProverV1Grpc.AggchainProofServiceClient) *AggchainProofClient {
+	return &AggchainProofClient{client: svc, grpcClientCfg: cfg}
+}
